@@ -48,12 +48,17 @@ def case_st(draw):
     return {'regs': regs, 'spell': spell, 'paths': paths}
 
 
+_LAST = {}
+
+
 def register(case):
     """-> (router, accepted: list of (idx, ast, method), rule texts)"""
     from ombott.router.radirouter import RadiRouter
     router = RadiRouter()
     accepted = []
     texts = []
+    events = []
+    _LAST['events'] = events        # the successful steps in order, replayed on an application by _wsgi_part
     for i, reg in enumerate(case['regs']):
         text = R.render(reg['ast'], reg['choice'], case['spell'])
         texts.append(text)
@@ -67,6 +72,7 @@ def register(case):
         # an accepted overwrite replaces the earlier registration of the same (pattern, method)
         accepted = [(j, a, m) for (j, a, m) in accepted if not (m == reg['method'] and R.pattern_key(a) == R.pattern_key(ast))]
         accepted.append((i, ast, reg['method']))
+        events.append(('add', i, ast, reg['method']))
     # rules flagged remove_after are taken out again (by rule text): only the survivors count
     for i, reg in enumerate(case['regs']):
         if reg.get('remove_after') and any(j == i for j, _, _ in accepted):
@@ -76,6 +82,7 @@ def register(case):
             except Exception:
                 raise CheckFailure(f'remove({texts[i]!r}) raised')
             accepted = [(j, a, m) for (j, a, m) in accepted if R.pattern_key(a) != key]
+            events.append(('remove', i, key, None))
     return router, accepted, texts
 
 
@@ -97,6 +104,7 @@ def expect(accepted, path):
 
 def check_case(ctx, case):
     router, accepted, texts = register(case)
+    events = _LAST['events']
     ctx.count('rules_accepted', len(accepted))
     ctx.count('rules_rejected', len(case['regs']) - len(accepted))
     if not accepted:
@@ -153,7 +161,7 @@ def check_case(ctx, case):
             ctx.count('empty_segment')
         if any(ord(c) > 127 for c in path):
             ctx.count('non_ascii_path')
-    _wsgi_part(ctx, case, accepted, texts)
+    _wsgi_part(ctx, case, accepted, texts, events)
 
 
 def _show(end_point, err):
@@ -163,48 +171,62 @@ def _show(end_point, err):
     return f'error {err[0] if err else None}'
 
 
-def _wsgi_part(ctx, case, accepted, texts):
+def _wsgi_part(ctx, case, accepted, texts, events):
     """The same rule set behind Ombott.__call__: what the handler really receives."""
     import ombott
     app = ombott.Ombott()
     box = {}
     ok = []
-    for i, ast, m in accepted:
-        def h(_i=i, **kw):
-            box['got'] = (_i, kw)
-            return 'h'
-        try:
-            app.route(texts[i], method=m, callback=h, overwrite=bool(case['regs'][i].get('overwrite')))
+    # the same history on the application, with requests served after EVERY step (what was answered before a registration must not stick)
+    for n, (ev, i, ast, m) in enumerate(events):
+        if ev == 'add':
+            def h(_i=i, **kw):
+                box['got'] = (_i, kw)
+                return 'h'
+            try:
+                app.route(texts[i], method=m, callback=h, overwrite=bool(case['regs'][i].get('overwrite')))
+            except Exception:
+                raise CheckFailure(f'rule {texts[i]!r} was accepted by RadiRouter.add but rejected by Ombott.route on an identical history')
+            ok = [(j, a, mm) for (j, a, mm) in ok if not (mm == m and R.pattern_key(a) == R.pattern_key(ast))]
             ok.append((i, ast, m))
-        except Exception:
-            raise CheckFailure(f'rule {texts[i]!r} was accepted by RadiRouter.add but rejected by Ombott.route on an identical history')
-    for path in case['paths'][:3]:
+        else:
+            try:
+                app.remove_route(texts[i])
+            except Exception as e:
+                raise CheckFailure(f'remove_route({texts[i]!r}) raised {fmt_exc(e)}')
+            ok = [(j, a, mm) for (j, a, mm) in ok if R.pattern_key(a) != ast]
+        last = n == len(events) - 1
+        _serve(ctx, app, box, ok, texts, case['paths'] if last else case['paths'][:4], every_method=last)
+
+
+def _serve(ctx, app, box, ok, texts, paths, every_method):
+    for path in paths:
         try:
             path.encode('utf8')
         except UnicodeError:
             continue
-        exp, why = expect(ok, path)
+        exp, why = expect(ok, path) if ok else ({'kind': 404}, None)
         if exp is None:
             continue
-        method = ok[0][2]
-        box.clear()
-        r = call_app(app, make_environ(method, path))
-        if r.escaped is not None:
-            raise CheckFailure(f'{method} {path!r}: exception escaped: {fmt_exc(r.escaped)}')
-        desc = [(texts[i], m) for i, _, m in ok]
-        if exp['kind'] == 404:
-            want_code = 404
-        else:
-            mate = [(i, a) for (i, a, m) in exp['mates'] if m == method]
-            want_code = 200 if mate else 405
-        if r.code != want_code:
-            raise CheckFailure(f'rules {desc}: {method} {path!r} answered {r.status!r}, expected {want_code}; {r.errors[-500:]}')
-        if want_code == 200:
-            i, ast = mate[0]
-            want = R.named(R.match(ast, path.strip('/'), not exp['strict']))
-            if box.get('got') != (i, want):
-                raise CheckFailure(f'rules {desc}: {method} {path!r}: handler call {box.get("got")!r}, expected handler of {texts[i]!r} with {want!r}')
-        ctx.count('wsgi_requests')
+        for method in (sorted({m for _, _, m in ok}) if every_method else [ok[0][2] if ok else 'GET']):
+            box.clear()
+            r = call_app(app, make_environ(method, path))
+            if r.escaped is not None:
+                raise CheckFailure(f'{method} {path!r}: exception escaped: {fmt_exc(r.escaped)}')
+            desc = [(texts[i], m) for i, _, m in ok]
+            if exp['kind'] == 404:
+                want_code = 404
+            else:
+                mate = [(i, a) for (i, a, m) in exp['mates'] if m == method]
+                want_code = 200 if mate else 405
+            if r.code != want_code:
+                raise CheckFailure(f'rules {desc} (registered so far): {method} {path!r} answered {r.status!r}, expected {want_code}; {r.errors[-500:]}')
+            if want_code == 200:
+                i, ast = mate[0]
+                want = R.named(R.match(ast, path.strip('/'), not exp['strict']))
+                if box.get('got') != (i, want):
+                    raise CheckFailure(f'rules {desc} (registered so far): {method} {path!r}: handler call {box.get("got")!r}, expected handler of {texts[i]!r} with {want!r}')
+            ctx.count('wsgi_requests')
 
 
 # ------------------------------------------------------------------ exhaustive small universe
@@ -309,6 +331,16 @@ def fixed_grid(ctx):
             ctx.guarded(check_case, {'regs': regs, 'spell': 0, 'paths': rm_paths})
             nsets += 1
     ctx.count('fixed_grid_remove_sets', nsets)
+    # a more specific rule registered AFTER the path was already answered through a more general one (and the reverse order)
+    late = [([L('/doc/'), W('page')], [L('/doc/index')], ['/doc/index', '/doc/other', '/doc/index/']),
+            ([L('/f/'), W('p', 'path')], [L('/f/7/'), W('name')], ['/f/7/x', '/f/7/x/y', '/f/8/x']),
+            ([L('/n/'), W('v')], [L('/n/'), W('v', 'int')], ['/n/12', '/n/tom']),
+            ([L('/'), W('a'), L('/'), W('b')], [L('/x/'), W('b')], ['/x/1', '/y/1'])]
+    for g, sp_, ps in late:
+        for order in ((g, sp_), (sp_, g)):
+            for spell in (0, 1):
+                ctx.guarded(check_case, {'regs': [{'ast': R._fix(a), 'choice': [2], 'method': 'GET'} for a in order], 'spell': spell, 'paths': ps})
+    ctx.count('fixed_grid_late_specific_rule', len(late))
 
 
 def run(ctx):
